@@ -179,7 +179,38 @@ func Fresh(prefix string, s *Sort) *Term {
 // Det returns a symbol whose name is determined by the identities of the given terms: evaluating the same
 // definitional construct twice (code path and specification) yields the same symbol.
 func Det(prefix string, s *Sort, ids ...*Term) *Term {
-	return Var(DetName(prefix, ids...), s)
+	// a Skolem function of the defining terms (so that it also works under quantifiers)
+	var args []*Term
+	var ss []*Sort
+	key := prefix + "$"
+	for _, t := range ids {
+		if t == nil {
+			key += "x"
+			continue
+		}
+		key += "a"
+		args = append(args, t)
+		ss = append(ss, t.Sort)
+	}
+	name := key
+	if d, ok := ufTable[name]; ok {
+		same := len(d.Args) == len(ss) && d.Res == s
+		if same {
+			for i := range ss {
+				if d.Args[i] != ss[i] {
+					same = false
+				}
+			}
+		}
+		if !same {
+			name = key + "@" + s.Name
+			for _, x := range ss {
+				name += "," + x.Name
+			}
+		}
+	}
+	DeclareUF(name, ss, s)
+	return App(name, args...)
 }
 
 func DetName(prefix string, ids ...*Term) string {
